@@ -34,21 +34,61 @@ fn run_bytes(log: &mut Log, tag: &str, text: &[u8], plan: &Plan) {
     }
     let sent = text[n - 1];
     let single = text.iter().filter(|&&c| c == sent).count() == 1;
+    if n == 1 {
+        log.oblige("text_len_1");
+    }
+    if n == 2 {
+        log.oblige("text_len_2");
+    }
     if plan.lcp && single && n >= 2 {
         let mut lcp_arr = None;
-        log.call("lcp", json!({"sa": usizes(&sa)}), || {
-            let l = lcp(text, &sa);
+        // the position argument is anything that derefs to the raw array: &Vec, Box, Rc, Arc
+        let wrap = (text.iter().map(|&c| c as usize).sum::<usize>() + n) % 4;
+        log.call("lcp", json!({"sa": usizes(&sa), "wrap": wrap}), || {
+            let l = match wrap {
+                0 => lcp(text, &sa),
+                1 => lcp(text, Box::new(sa.clone())),
+                2 => lcp(text, std::rc::Rc::new(sa.clone())),
+                _ => lcp(text, std::sync::Arc::new(sa.clone())),
+            };
+            // three views of the same array: decompress(), iter(), get(i)
             let d: Vec<i64> = l.decompress().iter().map(|&x| x as i64).collect();
+            let it: Vec<i64> = l.iter().map(|x| x as i64).collect();
+            let gets: Vec<i64> = (0..l.len()).map(|i| l.get(i).map(|x| x as i64).unwrap_or(-99)).collect();
+            let oob = l.get(l.len()).map(|x| x as i64).unwrap_or(-99);
+            let len = l.len();
             lcp_arr = Some(l);
-            json!({"lcp": i64s(&d)})
+            json!({"lcp": i64s(&d), "it": i64s(&it), "gets": i64s(&gets), "oob": oob, "len": len})
         });
+        log.oblige("lcp_three_views");
+        if n == 2 {
+            log.oblige("lcp_n2");
+        }
+        if n == 3 {
+            log.oblige("lcp_n3");
+        }
         if plan.sus {
             if let Some(l) = &lcp_arr {
                 log.call("sus", json!({"sa": usizes(&sa)}), || {
                     let s = shortest_unique_substrings(&sa, l);
                     let d: Vec<i64> = s.iter().map(|x| x.map(|v| v as i64).unwrap_or(-1)).collect();
-                    json!({"sus": i64s(&d)})
+                    // the suffix-array argument is any SuffixArray: also through a sampled one
+                    let alphabet = Alphabet::new(text);
+                    let b = bwt(text, &sa);
+                    let ls = less(&b, &alphabet);
+                    let occ = Occ::new(&b, 3, &alphabet);
+                    let smp = sa.sample(text, &b, &ls, &occ, 2);
+                    let s2 = shortest_unique_substrings(&smp, l);
+                    let d2: Vec<i64> = s2.iter().map(|x| x.map(|v| v as i64).unwrap_or(-1)).collect();
+                    json!({"sus": i64s(&d), "sus_s": i64s(&d2)})
                 });
+                log.oblige("sus_through_sampled_sa");
+                if n == 2 {
+                    log.oblige("sus_n2");
+                }
+                if n == 3 {
+                    log.oblige("sus_n3");
+                }
             }
         }
     }
@@ -84,6 +124,12 @@ fn run_bytes(log: &mut Log, tag: &str, text: &[u8], plan: &Plan) {
             if s == n {
                 log.oblige("sample_rate_eq_n");
             }
+            if s == 1 {
+                log.oblige("sample_rate_1");
+            }
+            if k == 1 {
+                log.oblige("occ_rate_1");
+            }
             if k > 64 && (n - 1) / k as usize >= 1 {
                 log.oblige("sample_occ_rate_gt64");
             }
@@ -112,6 +158,37 @@ fn run_bytes(log: &mut Log, tag: &str, text: &[u8], plan: &Plan) {
             if multi && s2 % s1 == 0 && s2 > s1 {
                 log.oblige("resample_multiple_rate_multi_sentinel");
             }
+        }
+        // clone() of the sampled array, and clone_from() into a sampled array that was built for ANOTHER
+        // text and has already answered; the copy and the original are both asked afterwards
+        {
+            let (sc, kc, _) = plan.samples[0];
+            let sc = if sc < 2 { 2 } else { sc };
+            let mode = 1 + h % 2; // 1 = clone, 2 = clone_from
+            log.call("sample", json!({"sa": usizes(&sa), "s": sc, "k": kc, "own": 1, "s1": 0, "serde": 0, "clone": mode}), || {
+                let occ = Occ::new(&b, kc, &alphabet);
+                let orig = sa.sample(text, b.clone(), l.clone(), occ.clone(), sc);
+                let copy = if mode == 1 {
+                    orig.clone()
+                } else {
+                    let mut other_text: Vec<u8> = text[..n - 1].iter().rev().cloned().collect();
+                    other_text.push(text[0].max(sent)); // another text over the same symbols
+                    other_text.push(sent);
+                    let osa = suffix_array(&other_text);
+                    let ob = bwt(&other_text, &osa);
+                    let ol = less(&ob, &Alphabet::new(&other_text));
+                    let oo = Occ::new(&ob, kc, &Alphabet::new(&other_text));
+                    let mut used = osa.sample(&other_text, ob, ol, oo, sc + 1);
+                    let _ = used.get(0);
+                    used.clone_from(&orig);
+                    used
+                };
+                let v: Vec<usize> = (0..copy.len()).map(|i| copy.get(i).unwrap_or(usize::MAX >> 34)).collect();
+                let oob = copy.get(n).map(|x| x as i64).unwrap_or(-1);
+                let v0: Vec<usize> = (0..orig.len()).map(|i| orig.get(i).unwrap_or(usize::MAX >> 34)).collect();
+                json!({"v": usizes(&v), "oob": oob, "v0": usizes(&v0)})
+            });
+            log.oblige(if mode == 1 { "clone_sampled_sa" } else { "clone_from_sampled_sa_other_text" });
         }
         let (s0, _, _) = plan.samples[plan.samples.len() - 1];
         let s0 = if s0 < 2 { 2 } else { s0 };
